@@ -110,6 +110,12 @@ class MiniEval(object):
                 continue
             if isinstance(s, ast.Assign) and len(s.targets) == 1 and isinstance(s.targets[0], ast.Name):
                 env[s.targets[0].id] = self.ev(s.value, env, fn)
+            elif isinstance(s, ast.Assign) and len(s.targets) == 1 and isinstance(s.targets[0], (ast.Tuple, ast.List)) and \
+                    isinstance(s.value, (ast.Tuple, ast.List)) and len(s.value.elts) == len(s.targets[0].elts) and \
+                    all(isinstance(t, ast.Name) for t in s.targets[0].elts):
+                vals = [self.ev(v, env, fn) for v in s.value.elts]
+                for t, v in zip(s.targets[0].elts, vals):
+                    env[t.id] = v
             elif isinstance(s, ast.If):
                 t = self.truth(self.ev(s.test, env, fn))
                 self.block(s.body if t else s.orelse, env, fn)
